@@ -648,6 +648,17 @@ def main():
             vresults.append((v, r))
             log(f"[{pid}]   {r['verdict']:9s} verus    {v['file']}  verified={r['verified']} errors={r['errors']} {r['wall_s']}s {r['reason']}")
 
+        # ---- native cross-checks of the trusted base (e.g. the lru stand-in against the real crate)
+        for nc in [n for n in unit.get("native", []) if tier == "thorough" or n.get("tier", "quick") == "quick"]:
+            tgt = f"{scratch}/native-target"
+            rc, out, wall, to = run_cmd(nc["cmd"], nc["cwd"], nc.get("timeout_s", 900), None, {"CARGO_TARGET_DIR": tgt})
+            ok = rc == 0 and not to
+            r = {"file": nc["name"], "kind": "native", "verdict": "pass" if ok else "undecided", "verified": 0, "errors": 0,
+                 "wall_s": round(wall, 1), "reason": "" if ok else "trusted-base cross-check failed: " + out.strip().splitlines()[-1][:200] if out.strip() else "no output",
+                 "raw": out[-2000:], "summary": out.strip().splitlines()[-1][:300] if out.strip() else ""}
+            vresults.append(({"file": nc["name"], "clause": nc.get("clause", "")}, r))
+            log(f"[{pid}]   {r['verdict']:9s} native   {nc['name']}  {r['wall_s']}s {r.get('summary', '')[:160]}")
+
         # ---- verdicts
         findings = load_findings()
         undecided = []
@@ -741,6 +752,10 @@ def write_evidence(pid, tier, seed, unit, results, vresults, status, splice_chan
                         "covers": f"{r['covers_satisfied']}/{r['covers']}", "wall_s": r["wall_s"],
                         "solver_s": r["solver_s"], "peak_rss_mb": r.get("rss_mb"), "back_end": "Kani 0.68 / CBMC 6.11 / " + (h.get("solver") or "cadical")})
     for v, r in vresults:
+        if r.get("kind") == "native":
+            samples.append({"obligation": v["file"], "strength": "native cross-check of the trusted base (not counted as an obligation)", "clause": v.get("clause", ""),
+                            "status": r["verdict"], "wall_s": r["wall_s"], "summary": r.get("summary", "")})
+            continue
         samples.append({"obligation": v["file"], "strength": "verus-lemma", "clause": v.get("clause", ""),
                         "status": r["verdict"], "verified_functions": r["verified"], "errors": r["errors"],
                         "wall_s": r["wall_s"], "back_end": "Verus 0.2026.09.13 / Z3"})
